@@ -249,7 +249,7 @@ func vfC18Report(k *vfKit, caseID string, mode vfC18Mode, ops []int, res vfC18Se
 func TestVerifC18MuxEnum(t *testing.T) {
 	k := vfNewKit(t, "C18", "mux-enum")
 	defer k.Finish()
-	// quick: every order up to length 5 in all six modes, length 6 in modes eager and lazy;
+	// quick: every order up to length 5 in all six modes, length 6 in mode lazy;
 	// thorough: up to length 7 in all six modes.
 	maxLen := 6
 	if !k.Quick() {
@@ -274,7 +274,7 @@ func TestVerifC18MuxEnum(t *testing.T) {
 				continue
 			}
 			for m := range vfC18Modes {
-				if k.Quick() && length == 6 && m >= 2 {
+				if k.Quick() && length == 6 && m != 1 {
 					continue
 				}
 				items = append(items, item{m, length, idx})
